@@ -400,6 +400,19 @@ def rewrite_for(src, toks, br, loop, spec_text, idx_name, log, kind_hint=None):
         # `for PAT in v` over a Vec by value: index loop copying each element (compiles only for Copy elements)
         head = f"let mut {n}: usize = 0;\n while {n} < {expr}.len()\n{spec_text}\n {{\n let {pat} = {expr}[{n}]; {n} += 1;\n"
         return head, f"for {pat} in {expr} {{ => index loop over the Vec `{expr}` (elements are Copy)"
+    if kind_hint and "iter" in kind_hint:
+        # `for PAT in EXPR[.rev()]` over a user type that implements Iterator / DoubleEndedIterator by delegating
+        # `next`/`next_back` to the named method (std's Rev::next is next_back): the iterator protocol spelled out
+        meth = kind_hint[kind_hint.index("iter") + 1]
+        b2 = strip_suffix(expr, ".rev()")
+        e0 = b2 if b2 is not None else expr
+        head = f"let mut {n}_it = {e0};\n while let Some({pat}) = {n}_it.{meth}()\n{spec_text}\n {{\n"
+        return head, f"for {pat} in {expr} {{ => iterator protocol: while let Some(..) = it.{meth}()"
+    if re.match(r"^[A-Za-z_][A-Za-z0-9_]*$", expr) and kind_hint and "rangeinc" in kind_hint:
+        # `for PAT in r` over a RangeInclusive<u64> by value: start..=end, without computing end + 1
+        head = (f"let mut {n}: u64 = *{expr}.start(); let {n}_end: u64 = *{expr}.end(); let mut {n}_done: bool = {n} > {n}_end;\n"
+                f" while !{n}_done\n{spec_text}\n {{\n let {pat} = {n}; if {n} == {n}_end {{ {n}_done = true; }} else {{ {n} += 1; }}\n")
+        return head, f"for {pat} in {expr} {{ => counting loop over the inclusive range `{expr}`"
     raise VxError(f"E7: unsupported iterator expression `{expr}` at line {line_of(src, toks[kw].start)}")
 
 def process_fn(repo, glob, fs, log):
